@@ -334,9 +334,16 @@ func (c07) Run(c *Ctx, i int) CaseResult {
 		res.Counters["exec_model_"+note]++
 	}
 	// L1: whatever the services answered, the observed execution is a run of the executor machine
-	for _, tf := range TraceFails(c, rec, o, in) {
+	tfs, tstatus := TraceFails(c, rec, o, in)
+	for _, tf := range tfs {
 		tf.Classifier = class
 		res.Fails = append(res.Fails, tf)
+	}
+	if tstatus != "" {
+		if res.Counters == nil {
+			res.Counters = map[string]int{}
+		}
+		res.Counters[tstatus]++
 	}
 	_, injectedErrs, shapes := fc.Injected.Snapshot()
 	var msgs []string
